@@ -470,7 +470,7 @@ impl StorageEngine {
         // and the persist call. The read lock allows concurrent inserts but
         // blocks KG drops from marking the KG as dropping until we finish.
         let dropping_guard = self.dropping_kgs.read();
-        if dropping_guard.contains(kg) {
+        if dropping_guard.contains(kg) || !self.knowledge_graphs.contains_key(kg) {
             return Err(StorageError::KnowledgeGraphNotFound(kg.to_string()));
         }
 
@@ -581,7 +581,7 @@ impl StorageEngine {
 
         // Hold dropping_kgs read guard across the persist operation (same as insert)
         let dropping_guard = self.dropping_kgs.read();
-        if dropping_guard.contains(kg) {
+        if dropping_guard.contains(kg) || !self.knowledge_graphs.contains_key(kg) {
             return Err(StorageError::KnowledgeGraphNotFound(kg.to_string()));
         }
 
